@@ -318,9 +318,11 @@ class NodeWorld:
             return None
         if behaviour == "slow":
             sk._sim_sleep(app._verif_cfg.get("slow_s", 3))
+        if behaviour == "very-slow":
+            sk._sim_sleep(7)          # longer than the 5 s a queued request waits for a free slot
         ans = app.generate_answer(message, result_code=2001)
         self._fill_answer(ans, message)
-        if behaviour in ("answer", "slow"):
+        if behaviour in ("answer", "slow", "very-slow"):
             if isinstance(app, self.mods["application"].ThreadingApplication):
                 return ans
             app.send_answer(ans)
